@@ -328,14 +328,16 @@ fn geometry_stream(r: &mut Rng, prop: &str, tier: u32, out: &mut Vec<String>) {
         };
         let y = plane_n(w, h, 0, 0, lxp, lyp);
         let u = plane_n(cw, ch, cxd, cyd, cxp, cyp);
-        let v = if wellformed || r.below(2) == 0 { u.clone() } else { plane_n(cw + r.below(2), ch, cxd, cyd, cxp, cyp) };
+        // the V plane gets its own padding (hence its own stride and origin): U and V need not share a layout
+        let (vxp, vyp) = if r.below(3) == 0 { (cxp, cyp) } else { (*r.pick(&[0u64, 1, 8, 17, 33, 64, 70]), r.below(18)) };
+        let v = if wellformed || r.below(2) == 0 { plane_n(cw, ch, cxd, cyd, vxp, vyp) } else { plane_n(cw + r.below(2), ch, cxd, cyd, vxp, vyp) };
         // one out-of-range sample now and then (16-bit storage below 16 bit): poke a buffer index
         let mut fill = format!("fill {} {}", r.below(1 << 30), maxcode);
         if ts == 2 && bd < 16 && r.below(3) == 0 {
             // boundary values first: 2^n itself, 2^n+1, the type maximum, then anything above
             let val = match r.below(4) { 0 => maxcode + 1, 1 => maxcode + 2, 2 => 65535, _ => maxcode + 1 + r.below(65535 - maxcode) };
             // aim at a visible sample most of the time (Plane::new: stride and xorigin are multiples of 32 samples for u16)
-            let (pi, pw, ph, xp, yp) = match r.below(3) { 0 => (0, w, h, lxp, lyp), k => (k, cw, ch, cxp, cyp) };
+            let (pi, pw, ph, xp, yp) = match r.below(3) { 0 => (0, w, h, lxp, lyp), 1 => (1, cw, ch, cxp, cyp), k => (k, cw, ch, vxp, vyp) };
             let al = |x: u64| (x + 31) / 32 * 32;
             let idx = if r.below(4) != 0 && pw > 0 && ph > 0 { (yp + r.below(ph)) * al(al(xp) + pw + xp) + al(xp) + r.below(pw) } else { r.below(4000) };
             fill.push_str(&format!(" poke {} {} {}", pi, idx, val));
